@@ -211,7 +211,7 @@ func init() {
 		ID:   "C07",
 		Rule: "Harnesses c07.go in harness/{amf0,rtmp,flv,aac,avc}: the input is an arbitrary byte string (all bytes symbolic, length forked 0..N); the only obligation is that the call returns: every panic site's feasibility is a solver query (bounds checks, nil checks, make sizes, divisions fork on their failure condition), and a path that exhausts its step budget is replayed natively under a 10 s watchdog (a native hang is a stall violation).",
 		Assumptions: append([]string{
-			"claimed subset: RTMP chunk reader and message/packet decoders, AMF0, FLV demuxer and tag decoders, ADTS/AudioSpecificConfig, AVC NAL/record/sample, WebSocket frame reader, JSON+ reader, enum helpers; NOT claimed: JWS/JWE/JWK parsing and OCSP (encoding/json, encoding/asn1, reflection, math/big are outside the engine), inputs longer than the stated bounds, and the linear-time clause (termination within the bound is shown, not a complexity class)",
+			"claimed subset: RTMP chunk reader and message/packet decoders, AMF0, FLV demuxer and tag decoders, ADTS/AudioSpecificConfig, AVC NAL/record/sample, WebSocket frame reader, JSON+ reader (C17's harness), the JOSE length/offset kernels (key wrap, CBC-HMAC Open, padding removal, AEAD decrypt) over stubbed primitives, enum helpers; NOT claimed: JWS/JWE/JWK parsing and OCSP (encoding/json, encoding/asn1, reflection, math/big are outside the engine), inputs longer than the stated bounds, and the linear-time clause (termination within the bound is shown, not a complexity class)",
 			"allocation sizes that depend on symbolic length fields with more than 64 feasible values are explored for 64 values (evidence: size_sampled_sites)",
 		}, commonAssumptions...),
 		Harnesses: []harnessSpec{
@@ -228,6 +228,10 @@ func init() {
 			{Pkg: "aac", Func: "HarnessC07_AacEnums", Labels: []string{"c07-aac-enums"}, Bound: "all aac enum helpers, receiver symbolic over uint8"},
 			{Pkg: "avc", Func: "HarnessC07_Avc", Stall: true, Labels: []string{"c07-avc", "c07-avc-record", "c07-avc-sample"}, Bound: "NALU / record / sample (length size 1..4) UnmarshalBinary on every byte string of 0..10 bytes (thorough 0..14)"},
 			{Pkg: "websocket", Func: "HarnessC07_Websocket", TimeFixed: true, Stall: true, Labels: []string{"c07-websocket"}, Bound: "NextReader/Read until error over every byte string of 0..5 bytes (thorough 0..8, also with a read limit), both roles; deeper states are covered from arbitrary reader states by C14_Step"},
+			{Pkg: "https/jose/cipher", Func: "HarnessC07_KeyWrap", Stall: true, Labels: []string{"c07-keywrap", "c07-unwrap-ok", "c07-wrap-ok"}, Bound: "KeyUnwrap/KeyWrap on every input length 0..40 with symbolic bytes; block cipher stub with unconstrained output"},
+			{Pkg: "https/jose/cipher", Func: "HarnessC07_CBCHMAC", Stall: true, Labels: []string{"c07-cbchmac", "c07-cbc-ok"}, Bound: "cbcAEAD.Open with nonce length in {0,8,15,16,17}, ciphertext+tag length in {0,1,15,16,17,31,32,33,48}, aad 0-1 bytes; HMAC and block cipher stubs with unconstrained outputs (both tag outcomes explored)"},
+			{Pkg: "https/jose/cipher", Func: "HarnessC07_Unpad", Stall: true, Labels: []string{"c07-unpad", "c07-unpad-ok"}, Bound: "unpadBuffer on every buffer of length {0,1,15,16,17,32}"},
+			{Pkg: "https/jose", Func: "HarnessC07_AeadDecrypt", Stall: true, Labels: []string{"c07-aead", "c07-aead-ok"}, Bound: "aeadContentCipher.decrypt with IV length in {0,1,11,12,13,16}, tag length in {0,1,15,16,17}, ciphertext 0-2 bytes over an AEAD stub that follows the documented cipher.AEAD contract (panics on a nonce of the wrong size)"},
 			{Pkg: "avc", Func: "HarnessC07_AvcEnums", Labels: []string{"c07-avc-enums"}, Bound: "NALUType (uint8), AVCProfile (uint16), AVCLevel (uint8) String() over their whole range"},
 		},
 	})
